@@ -131,7 +131,9 @@ DeriveDest(d) ==
       wfMsg |-> WfRequest(msg),
       faithful |-> WfRequest(msg) /\ msg[2] = d.cmd /\ RequestAddr(msg) = d.addr /\ RequestPort(msg) = d.port ]
 
-\* constant-level tables: TLC evaluates them once
+\* tables (lazy on purpose: an application evaluates the one entry it needs; the constants are
+\* bound by substitution in the configuration, which TLC re-evaluates at every reference, so a
+\* forced table would be rebuilt - base64 and all - each time)
 AuthTab == [nm \in DOMAIN AuthKinds |-> [e \in ExtVariants |-> Derive(AuthKinds[nm], e)]]
 DestTab == [nm \in DOMAIN DestKinds |-> DeriveDest(DestKinds[nm])]
 BndTab  == [nm \in DOMAIN BndKinds |-> BndKinds[nm]]
@@ -139,11 +141,14 @@ BndTab  == [nm \in DOMAIN BndKinds |-> BndKinds[nm]]
 --------------------------------------------------------------------------
 (* the server's stream *)
 
+\* the destination's octets (position-coded): what follows the server's reply on the connection
+DestBytes(n) == [i \in 1..n |-> (i * 7 + 100) % 251]
+
 StreamFull(s) ==
     MethodReply(s.mver, s.method)
     \o (IF s.aver >= 0 THEN AuthReply(s.aver, s.astatus) ELSE << >>)
     \o ReplyMsg(s.rver, s.rep, s.rsv, BndTab[s.bnd].atyp, BndTab[s.bnd].field, BndTab[s.bnd].port)
-    \o Rep(222, s.tail)
+    \o DestBytes(s.tail)
 
 AuthOf(s) == AuthTab[s.auth][s.ext]
 DestOf(s) == DestTab[s.dest]
@@ -185,10 +190,15 @@ PredOn(s, b) ==
     ELSE Out(G, 2, FA)                                     \* FF, a method not offered, an unknown method
 
 \* The stream of a scenario: everything the server has to say, or its first `trunc` octets,
-\* or (`exact`) just the octets a correct client reads, after which the server closes.
+\* or (`exact`) just the octets a correct client reads, after which the server closes;
+\* `exactIfFail`: the latter when the dialogue fails, everything (the destination's octets
+\* follow the reply) when it succeeds.
+Success(c) == c = {"Established"} \/ c = {"UdpAssociated"}
+CutIfFail(f, p) == IF Success(p.cls) THEN f ELSE SubSeq(f, 1, p.used)
 StreamOf(s) ==
     LET f == StreamFull(s) IN
     IF s.exact THEN SubSeq(f, 1, PredOn(s, f).used)
+    ELSE IF s.exactIfFail THEN CutIfFail(f, PredOn(s, f))
     ELSE IF s.trunc < 0 THEN f
     ELSE SubSeq(f, 1, Min(s.trunc, Len(f)))
 
@@ -422,6 +432,16 @@ FailureMapping ==
         /\ ReqClass(ReplyTok(6)) = "Timeout"
         /\ (Has("auth") /\ ~ Has("request") /\ consumed = 4 /\ stream[3] = SubVer /\ stream[4] # 0) => cls = A
         /\ (Done /\ code > 0) => "Established" \notin cls /\ "UdpAssociated" \notin cls
+
+\* After success the connection *is* the tunnel to the destination (the forwarder makes the
+\* pipe's peer source / sink of the stream connect() returns, TcpForwarder::pipe_from_stream):
+\* what the dialogue has not taken from the server's stream is exactly the destination's
+\* octets - nothing of the reply is left in front of them, none of them was taken with it.
+Remainder == SubSeq(stream, consumed + 1, Len(stream))
+TunnelIsDestination ==
+    "Established" \in cls =>
+        /\ Remainder = SubSeq(DestBytes(scn.tail), 1, Len(stream) - consumed)
+        /\ (scn.trunc < 0 /\ ~ scn.exact) => Len(Remainder) = scn.tail       \* (exactIfFail: it did not fail)
 
 \* the outcome is a function of the scenario, not of the chunking or of when chunks arrive
 SegIndependent ==
